@@ -72,7 +72,11 @@ NodeStrategies == {"attestationdata", "aggregateattestation", "beaconblockpropos
                    "synccommitteecontribution", "beaconblockroot", "signedbeaconblock", "beaconblockheader"}
 Strategies == NodeStrategies \cup {"builderbid"}
 Modules == {"scheduler", "graffiti", "majordomo", "signer", "validatorsmanager", "cache"}
-Services == Strategies \cup {"submitter", "eth2client", "multiclient"} \cup Modules
+\* "attestingnodes": util.BeaconNodeAddressesForAttesting(), the nodes whose events drive the controller - "the events
+\* provider for the controller should only use beacon nodes that are used for attestation data" (main.go): the
+\* addresses of the attestation data implementation that runs, the top-level ones when that is the simple one
+Services == Strategies \cup {"submitter", "eth2client", "multiclient", "attestingnodes"} \cup Modules
+StyleKey(s) == IF s = "attestingnodes" THEN "attestationdata" ELSE s
 
 \* the implementations of a service that take hierarchical settings ("simple" / "error": none taken)
 Impls(s) ==
@@ -84,6 +88,7 @@ Impls(s) ==
       [] s = "submitter" -> {"multinode", "immediate"}
       [] s = "eth2client" -> Nodes
       [] s = "multiclient" -> {"multi"}
+      [] s = "attestingnodes" -> {"best", "majority", "first", "simple"}
       [] s = "scheduler" -> {"advanced"}
       [] s = "graffiti" -> {"static", "dynamic"}
       [] s = "cache" -> {"standard"}
@@ -96,6 +101,7 @@ Impl(s, st) ==
       [] s = "builderbid" -> IF st = "deadline" THEN "deadline" ELSE IF st \in {"best", ""} THEN "best" ELSE "error"
       [] s = "submitter" -> IF st \in {"multinode", "all"} THEN "multinode" ELSE "immediate"
       [] s \in Strategies -> IF st \in Impls(s) THEN st ELSE "simple"
+      [] s = "attestingnodes" -> IF st \in {"best", "majority", "first"} THEN st ELSE "simple"
       [] s = "graffiti" -> IF st = "dynamic" THEN "dynamic" ELSE "static"
       [] s = "scheduler" -> "advanced"
       [] OTHER -> "standard"
@@ -128,6 +134,8 @@ Uses(s, i) ==
               Std({"timeout", "log-level"}, <<"eth2client", i>>)
               \cup {Use("reduced-memory-usage", "bool", <<"eth2client", i>>)}
       [] s = "multiclient" /\ i = "multi" -> Std({"log-level"}, <<"eth2client", "multi">>)
+      [] s = "attestingnodes" /\ i \in {"best", "majority", "first"} -> Std({"addresses"}, <<"strategies", "attestationdata", i>>)
+      [] s = "attestingnodes" /\ i = "simple" -> Std({"addresses"}, <<>>)
       [] s = "scheduler" /\ i = "advanced" -> Std({"log-level"}, <<"scheduler", "advanced">>)
       [] s = "graffiti" /\ i \in {"static", "dynamic"} -> Std({"log-level"}, <<"graffiti", i>>)
       [] s = "cache" /\ i = "standard" -> Std({"log-level"}, <<"cache", "standard">>)
@@ -151,7 +159,7 @@ Neighbour(s) == CASE s = "signedbeaconblock" -> "beaconblockheader"
 
 CallerPath(s, st, i, x) ==
     CASE PathRule = "documented" -> x.p
-      [] PathRule = "from-style" -> IF s \in Styled /\ Len(x.p) > 0 /\ x.p[Len(x.p)] = i THEN Append(Parent(x.p), st) ELSE x.p
+      [] PathRule = "from-style" -> IF s \in Styled \cup {"attestingnodes"} /\ Len(x.p) > 0 /\ x.p[Len(x.p)] = i THEN Append(Parent(x.p), st) ELSE x.p
       [] PathRule = "parent" -> IF Len(x.p) > 1 THEN Parent(x.p) ELSE x.p
       [] PathRule = "sibling" -> IF Len(x.p) > 0 /\ x.p[Len(x.p)] = i THEN Append(Parent(x.p), OtherImpl(s, i)) ELSE x.p
       [] PathRule = "neighbour" -> [n \in DOMAIN x.p |-> IF x.p[n] = s THEN Neighbour(s) ELSE x.p[n]]
@@ -183,13 +191,13 @@ Boot(c, d, st) ==
 StartAs(s, i) ==
     /\ up
     /\ LET key == <<s, i>>
-           g == Given(s, style[s], i)
+           g == Given(s, style[StyleKey(s)], i)
        IN  /\ got' = [y \in DOMAIN got \cup {key} |-> IF y = key THEN g ELSE got[y]]
            /\ last' = key
     /\ starts' = starts + 1
     /\ UNCHANGED <<up, cfg, dflt, style, focus>>
 
-Start(s) == \E i \in (IF s \in {"eth2client", "majordomo"} THEN Impls(s) ELSE {Impl(s, style[s])}) : StartAs(s, i)
+Start(s) == \E i \in (IF s \in {"eth2client", "majordomo"} THEN Impls(s) ELSE {Impl(s, style[StyleKey(s)])}) : StartAs(s, i)
 
 -----------------------------------------------------------------------------
 (* the model-checked lattice: per focus set, every tree over the points on the documented paths   *)
@@ -252,7 +260,7 @@ OthersIrrelevantUsed ==
 
 \* (control) the "from-style" caller is right whenever the operator spells the style out
 SpelledOutOK ==
-    \A key \in DOMAIN got : style[key[1]] = key[2] =>
+    \A key \in DOMAIN got : style[StyleKey(key[1])] = key[2] =>
         \A x \in Uses(key[1], key[2]) : got[key][x.u] = Walk(cfg[x.k], x.p, dflt[x.k])
 
 \* one process, one configuration: a service constructed again receives what it received before
